@@ -23,18 +23,41 @@ typedef struct { pixman_region16_data_t hdr; pixman_box16_t boxes[POOLCAP]; } vp
 #endif
 static vp_slot_t vp_pool[VP_POOL];
 static int vp_pool_next;
+#ifdef VP_POOL_TRACK
+/* allocation-failure injection and leak accounting (C15 instances of the sweep) */
+static int vp_fail_at, vp_alloc_calls;
+static unsigned char vp_live[VP_POOL];
+static int vp_is_slot (const void *p) { int i, r = 0; for (i = 0; i < VP_POOL; i++) if (p == (const void *) &vp_pool[i]) r = 1; return r; }
+static int vp_live_slots (void) { int i, n = 0; for (i = 0; i < VP_POOL; i++) n += vp_live[i]; return n; }
+#define VP_ALLOC_FAILS() (++vp_alloc_calls == vp_fail_at)
+#else
+#define VP_ALLOC_FAILS() 0
+#endif
 static void *vp_malloc (size_t n)
 {
+    if (VP_ALLOC_FAILS ()) return NULL;
     VP_ASSERT (n <= sizeof (vp_slot_t), "allocation fits the pre-sized slot (harness bound)");
     VP_ASSERT (vp_pool_next < VP_POOL, "enough slots (harness bound)");
+#ifdef VP_POOL_TRACK
+    vp_live[vp_pool_next] = 1;
+#endif
     return &vp_pool[vp_pool_next++];
 }
 static void *vp_realloc (void *p, size_t n)
 {
+    if (VP_ALLOC_FAILS ()) return NULL;
     VP_ASSERT (n <= sizeof (vp_slot_t), "reallocation fits the pre-sized slot (harness bound)");
     return p;
 }
-static void vp_free (void *p) { (void) p; }
+static void vp_free (void *p)
+{
+#ifdef VP_POOL_TRACK
+    int i;
+    for (i = 0; i < VP_POOL; i++)
+	if (p == (void *) &vp_pool[i]) { VP_ASSERT (vp_live[i], "no double free of a rectangle array"); vp_live[i] = 0; }
+#endif
+    (void) p;
+}
 #define malloc vp_malloc
 #define realloc vp_realloc
 #define free vp_free
